@@ -42,6 +42,7 @@ type Profile struct {
 	RelWeight    int    // weight of relative targets against 6 for named ones (default 3)
 	EndWeight    int    // weight of each kind of end node against 6 for menu nodes (default 1)
 	CatchLoad    bool   // the catch node may LOAD a symbol
+	BadUTF8      bool   // some results carry bytes that are not valid UTF-8
 	ManySyms     bool   // up to 28 external symbols, nodes that load up to 20 of them
 	Unicode      bool   // multi-byte UTF-8 in labels, translations, static template text and padded values
 	StaticSyms   bool   // some external symbols are static-load symbols with per-language entries
@@ -625,6 +626,9 @@ func genBehav(t *tape.Tape, p Profile, e *ExtSym) ExtBehav {
 	b := ExtBehav{Len: -1}
 	if p.Unicode && t.Chance(1, 2) {
 		b.Uni = true
+	}
+	if p.BadUTF8 && t.Chance(1, 3) {
+		b.Bad = true
 	}
 	if p.ExtErrPct > 0 && t.Chance(p.ExtErrPct, 100) {
 		b.Err = true
